@@ -5,6 +5,7 @@ exact-arithmetic doubles or from oracle TABLE lines.
 -/
 import VirVerif.Model.Hier
 import VirVerif.Model.Doubles
+import VirVerif.Model.Cond
 import VirVerif.Drv.Proto
 namespace VirVerif.Drv
 open VirVerif
@@ -67,21 +68,30 @@ def leafLookup (st : St) (kind : String) (i : Nat) (g : Option Float) (a : Float
 
 def condOf (m : ModelSpec) : Nat → Option Nat := fun i => (m[i]?).bind (·.cond)
 
+/-- a method `m s l x` of a rational-double dimension. Conditioned (`g = some _`): the proved model
+`ratCond` (= `condEval` of `Model/Cond.lean`; `VirVerif.C08.ratCond_eq_template_at_dependence_values`
+shows it is never `none` and equals `m (paramAt s g) (paramAt l g) x`). Unconditional: a plain
+distribution with constant parameters. -/
+def ratAt (m : Float → Float → Float → Float) (spec : RatSpec Float) (g : Option Float) (x : Float) : Float :=
+  match g with
+  | some g => (ratCond m spec x g).getD nan
+  | none => m (paramAt spec.s none) (paramAt spec.l none) x
+
 def qOf (st : St) (m : ModelSpec) : Nat → Option Float → Float → Float := fun i g p =>
   match m[i]? with
-  | some { fam := .rat spec, .. } => ratIcdf (paramAt spec.s g) (paramAt spec.l g) p
+  | some { fam := .rat spec, .. } => ratAt ratIcdf spec g p
   | some { fam := .table, .. } => leafLookup st "Q" i g p
   | none => nan
 
 def cdfOf (st : St) (m : ModelSpec) : Nat → Option Float → Float → Float := fun i g x =>
   match m[i]? with
-  | some { fam := .rat spec, .. } => ratCdf (paramAt spec.s g) (paramAt spec.l g) x
+  | some { fam := .rat spec, .. } => ratAt ratCdf spec g x
   | some { fam := .table, .. } => leafLookup st "F" i g x
   | none => nan
 
 def pdfOf (st : St) (m : ModelSpec) : Nat → Option Float → Float → Float := fun i g x =>
   match m[i]? with
-  | some { fam := .rat spec, .. } => ratPdf (paramAt spec.s g) (paramAt spec.l g) x
+  | some { fam := .rat spec, .. } => ratAt ratPdf spec g x
   | some { fam := .table, .. } => leafLookup st "f" i g x
   | none => nan
 
